@@ -511,4 +511,67 @@ pub fn send_to_gui(message: &str) {
     ("C06", "is_check-wrong-king", MG, """        White => is_check_cords(board, White, board.white_king_location),
         Black => is_check_cords(board, Black, board.black_king_location),""", """        White => is_check_cords(board, White, board.white_king_location),
         Black => is_check_cords(board, Black, board.white_king_location),""", "R6.1", "black's check status probed on the white king square (killed by tests; control)"),
+
+    # ---------------- C12 windows and guards
+    ("C12", "window-not-swapped", EN,
+     """    let mut best_score = -alpha_beta_search(
+        start,
+        time_to_move_ms,
+        &moves[0],
+        depth - 1,
+        ply_from_root + 1,
+        -beta,
+        -alpha,""",
+     """    let mut best_score = -alpha_beta_search(
+        start,
+        time_to_move_ms,
+        &moves[0],
+        depth - 1,
+        ply_from_root + 1,
+        -alpha,
+        -beta,""", "R12.2", "first move searched with an inverted window"),
+    ("C12", "cutoff-on-alpha", EN,
+     """        if score > best_score {
+            if score >= beta {""",
+     """        if score > best_score {
+            if score >= alpha {""", "R12.3", "cut-off as soon as a move reaches alpha"),
+    ("C12", "research-guard-beyond-beta", EN, """        if score > alpha && score < beta {""", """        if score > alpha {""", "R12.3", "re-search also for fail-high scores (value-preserving? costs time only) - checks the guard shape"),
+    ("C12", "skip-two", EN, """    for mov in moves.iter().skip(1) {""", """    for mov in moves.iter().skip(2) {""", "R12.4", "second move never searched"),
+    ("C12", "null-move-depth-1", EN, """    if allow_null && depth >= 3 && !is_check(board, board.to_move) {""", """    if allow_null && depth >= 1 && !is_check(board, board.to_move) {""", "R12.5", "speculative pruning at shallow depth"),
+    ("C12", "quiesce-alpha-raise-nonstrict", EN, """        if score > alpha {
+            alpha = score;
+        }
+    }
+    alpha
+}""", """        if score >= beta - 1 {
+            alpha = score;
+        }
+    }
+    alpha
+}""", "R12.3", "alpha replaced by a score that need not exceed it"),
+    ("C11", "mate-distance-clamp-sign", EN, """    alpha = max(alpha, -MATE_SCORE + ply_from_root);""", """    alpha = max(alpha, -MATE_SCORE - ply_from_root);""", "R11.2", "mate-distance pruning bound moves the wrong way"),
+    # ---------------- C03 notation
+    ("C03", "letter-table-swap", UC, """            'n' => Knight,
+            'b' => Bishop,""", """            'n' => Bishop,
+            'b' => Knight,""", "R3.6", "replayed under-promotions swap knight and bishop"),
+    ("C03", "double-reply", UC, """    let board = best_move.unwrap();
+    send_best_move_to_gui(&board);""", """    let board = best_move.unwrap();
+    send_best_move_to_gui(&board);
+    if board.pawn_promotion.is_some() {
+        send_best_move_to_gui(&board);
+    }""", "R3.1", "two bestmove lines after a promotion"),
+    ("C03", "go-arm-discards-board", UC, """                board = find_and_play_best_move(&commands, &mut board, start, &mut draw_table);""", """                find_and_play_best_move(&commands, &mut board, start, &mut draw_table);""", "R3.5", "consecutive go commands search the same position again"),
+    ("C03", "rank-table-typo", BD, """                3 => "7",
+                4 => "6",""", """                3 => "6",
+                4 => "7",""", "R3.6", "ranks 6 and 7 printed swapped"),
+    ("C02", "last-move-swapped", MG, """        new_board.last_move = Some((square_cords, mov));
+
+        // if you make your move""", """        new_board.last_move = Some((mov, square_cords));
+
+        // if you make your move""", "R2.7", "move descriptor reversed"),
+    ("C02", "ep-removes-wrong-square", MG, """                new_board.board[mov.0 - 1][mov.1] = Square::Empty;
+                new_board.zobrist_key ^=
+                    zobrist_hasher.get_val_for_piece(Piece::pawn(White), Point(mov.0 - 1, mov.1));""", """                new_board.board[mov.0 + 1][mov.1] = Square::Empty;
+                new_board.zobrist_key ^=
+                    zobrist_hasher.get_val_for_piece(Piece::pawn(White), Point(mov.0 + 1, mov.1));""", "R2.7", "black en-passant capture removes the square in front of the target"),
 ]
